@@ -103,7 +103,8 @@ class C15(Harness):
         def canon(rep, X):
             """-> (values[i][j][t], column names or None)"""
             if rep in ("nested", "nested_np"):
-                return [[[S(v) for v in list(X.iloc[i, j])] for j in range(X.shape[1])] for i in range(X.shape[0])], [str(c) for c in X.columns]
+                cellv = lambda c: [S(v) for v in list(c)] if hasattr(c, "__len__") else ["<scalar cell %r>" % (c,)]  # noqa: E731
+                return [[cellv(X.iloc[i, j]) for j in range(X.shape[1])] for i in range(X.shape[0])], [str(c) for c in X.columns]
             if rep == "3d":
                 return [[[S(X[i, j, t]) for t in range(X.shape[2])] for j in range(X.shape[1])] for i in range(X.shape[0])], None
             if rep == "mi":
@@ -177,8 +178,16 @@ class C15(Harness):
         cx["3d->pandas"] = canon("nested", vp.check_X(arr3(), coerce_to_pandas=True))[0]
         cx["3d->numpy"] = canon("3d", vp.check_X(arr3(), coerce_to_numpy=True))[0]
         cx["nested->pandas"] = canon("nested", vp.check_X(n0, coerce_to_pandas=True))[0]
+        cx["nested_np->pandas"] = canon("nested", vp.check_X(nested(True), coerce_to_pandas=True))[0]
         out["check_X"] = cx
+        out["check_X_cols"] = {"nested->pandas": [str(c) for c in vp.check_X(n0, coerce_to_pandas=True).columns], "nested_np->pandas": [str(c) for c in vp.check_X(nested(True), coerce_to_pandas=True).columns]}
         out["names"] = names
+        if nc == 1:
+            # table -> nested with the caller's own instance labels (a fold of a larger panel, ids ...)
+            labs = [10 - 3 * i for i in range(ni)]
+            tab = dp.from_nested_to_2d_array(n0)
+            back = dp.from_2d_array_to_nested(tab, index=pd.Index(labs), columns=names)
+            out["table_back"] = {"vals": canon("nested", back)[0], "index": [int(v) for v in back.index], "cols": [str(c) for c in back.columns], "labels": labs}
         return out
 
     def oracle(self, P, inp, out, cell):
@@ -216,6 +225,13 @@ class C15(Harness):
         P.check("nestedness-predicates", p["primitives"] == [False, False, False], {"primitives": p["primitives"]})
         for k, vals in out["check_X"].items():
             same(vals, "check_X-coercions", None, {"coercion": k})
+        for k, cols in out["check_X_cols"].items():
+            P.check("column-names-preserved", cols == names, {"coercion": k, "cols": cols, "want": names})
+        if "table_back" in out:
+            tb = out["table_back"]
+            same(tb["vals"], "cell-preserved", None, {"path": "nested->2d->nested(index=labels)"})
+            P.check("shape-preserved", tb["index"] == tb["labels"], {"path": "nested->2d->nested(index=labels)", "index": tb["index"]})
+            P.check("column-names-preserved", tb["cols"] == names, {"path": "nested->2d->nested(index=labels)"})
 
     def signature(self, label, inp, cell, detail=None):
         d = detail or {}
